@@ -41,6 +41,10 @@ CHECKS = {
    "TLA+ generator UrlAttack.tla enumerated by TLC, every attack concretised and converted in safe mode; every emitted href/src decoded like a browser and classified by the WHATWG-front-end operator Class of HtmlOut.tla, evaluated by TLC",
    "TLC enumerates 6 schemes x 4 letter-case patterns x 24 obfuscations (none, backslash, named/decimal/hex/padded references, percent, leading and embedded whitespace/control characters raw and as references, double encoding) x 3 positions x 17 constructs (inline, <...>, reference definitions full/collapsed/shortcut, images, autolinks, linkify, nested image in link, footnote, table, definition list, containers) = 29376 documents, each converted under 12 (thorough: 128) safe configurations; TLC classifies every decoded href/src. URL-slot documents of Slots.tla, repository examples and 3000 (80000) mutated documents seeded with scheme fragments go through the same acceptor. Exhaustive over the attack grammar.",
    "TLC, Json/IOUtils; html.UnescapeString; browser modelled by the WHATWG scheme front end only", "DESIGN.md 3.10, 5/C04"),
+ "C08": ("model_checking",
+   "TLA+ law QuoteLaw of Meta.tla evaluated by TLC on line-token abstractions of (out(D), out('> '-prefixed D)) pairs recorded from the real library; workload = TLC-enumerated Slots.tla product, all short strings, spec examples with spec.json as expected side, repository and mutated documents",
+   "Every tab/CR-free non-blank document of the Slots.tla product (19k), every string of length <= 3 over a 21-symbol alphabet, ~950 repository examples and 4000 (80000) mutated documents is converted plain and with '> ' in front of every line, 1 to 2 (3) levels deep, under {core, GFM} x {safe, unsafe, XHTML}; for the 652 spec examples the inner side is spec.json's HTML. 408k law instances quick; records are renamed injectively and deduplicated by shape, and TLC evaluates QuoteLaw on every distinct shape. The law is relational, so no expected output is needed.",
+   "TLC, Json/IOUtils; line-level comparison (outputs of block rendering end in a newline; others are not judged)", "DESIGN.md 3.11, 5/C08"),
 }
 
 NOT_YET = "check not built yet in this revision of /verif (see DESIGN.md section 5 for the planned TLA+ decision procedure)"
